@@ -11,7 +11,7 @@
     (character-class names, the regex crate's set operators inside brackets, backslash before
     an alphanumeric or non-ASCII character inside brackets, extglob groups, '/') is reported
     as unsupported and such cases are dropped by the driver. *)
-From BV Require Import Base.Prelude Expand.Model.
+From BV Require Import Base.Prelude gen.ExpandGen Expand.Model.
 
 Inductive tok := TChar (c : char) | TAny | TStar | TSet (neg : bool) (items : list (char * char)).
 
@@ -182,7 +182,10 @@ Definition dirglob (e : env) (f : wfield) : list str :=
   match toks (S (length (field_pattern f))) (extglob e) (field_pattern f) with
   | None => []
   | Some ts =>
-      let allow_dot := dotglob e || match f with p :: _ => starts_with_dot (piece_str p) | [] => false end in
+      (* which piece is inspected for a leading dot is read from the Rust source (gen/ExpandGen.v) *)
+      let probe := if dot_test_first_piece_only then f
+                   else filter (fun p => negb (is_nil (piece_str p))) f in
+      let allow_dot := dotglob e || match probe with p :: _ => starts_with_dot (piece_str p) | [] => false end in
       sort_strs (filter (fun n => tmatch ts n && (negb (starts_with_dot n) || allow_dot)) names)
   end.
 End Dir.
